@@ -1,5 +1,6 @@
 (* C04 — the assembler accepts exactly the programs whose operands fit. *)
 From Coq Require Import ZArith.
+From Lace Require AsmAccept.
 From Lace Require Import Word Machine Isa Asm AsmProofs.
 Open Scope N_scope.
 
@@ -64,3 +65,27 @@ Example C04_nonvacuous :
   check_range (Unsigned 16) 65535 = true /\ check_range (Unsigned 8) 255 = true /\
   check_range (Unsigned 8) 256 = false.
 Proof. vm_compute. repeat split; reflexivity. Qed.
+
+(** Statement level, as one equivalence.  [AsmAccept.shape] is the specification: for every
+    instruction the operand positions and the field each must fit (ADD/AND: register, register,
+    register-or-imm5; BR*: label or 9-bit offset; JSR: label or 11-bit offset; LD/LDI/LEA/ST/STI:
+    register, label or 9-bit offset; LDR/STR: register, register, 6-bit offset; NOT: two registers;
+    JMP/JSRR/PUSH/POP: a register; CALL: a label; RET/RTI/RETS: none; TRAP: an 8-bit unsigned
+    vector).  A token fits a position ([AsmAccept.fits]) when it is a register where one is due, a
+    literal — any radix — whose value passes the range test of the field, or a label where a label
+    may stand.  The statement parser accepts exactly the token sequences that fit, consumes
+    exactly those tokens, rejects everything else with a diagnostic, and never panics. *)
+Theorem C04_statement : forall sym line k toks te n,
+  AsmAccept.specL (AsmAccept.shape k) (parse_instr sym line k (toks, te) n) toks.
+Proof. exact AsmAccept.parse_instr_accepts. Qed.
+Print Assumptions C04_statement.
+
+Theorem C04_statement_iff : forall sym line k toks te n,
+  (exists s p, parse_instr sym line k (toks, te) n = Ok (s, p)) <-> AsmAccept.fits_all (AsmAccept.shape k) toks = true.
+Proof. exact AsmAccept.parse_instr_iff. Qed.
+Print Assumptions C04_statement_iff.
+
+Theorem C04_trap_statement : forall k toks te n,
+  AsmAccept.specL (AsmAccept.trap_shape k) (parse_trap k (toks, te) n) toks.
+Proof. exact AsmAccept.parse_trap_accepts. Qed.
+Print Assumptions C04_trap_statement.
